@@ -205,7 +205,33 @@ namespace DFS
   }
 }  // namespace DFS
 
+namespace
+{
+int wrapped_main (int argc, char *argv[]);
+}  // namespace
+
 int main (int argc, char *argv[])
+{
+  /* The commands write to std::cout, which is buffered.  If that
+   * output cannot be written (for example because the disc is full),
+   * the failure may only show up when the buffer is flushed, and if we
+   * left that to the C++ runtime the exit status would still be zero.
+   * So flush here and report any failure.
+   */
+  int exitval = wrapped_main(argc, argv);
+  std::cout.flush();
+  if (!std::cout.good())
+    {
+      std::cerr << "error: failed to write to standard output\n";
+      if (exitval == 0)
+	exitval = 1;
+    }
+  return exitval;
+}
+
+namespace
+{
+int wrapped_main (int argc, char *argv[])
 {
   if (!check_consistency())
     return 2;
@@ -338,3 +364,4 @@ int main (int argc, char *argv[])
       return 1;
     }
 }
+}  // namespace
